@@ -685,6 +685,10 @@ func init() {
 		return c
 	}
 	intrinsics["math/rand.Int63n"] = func(fr *frame, a []value) value { return int64(0) }
+	harnessAPI["verifMapOrders"] = func(fr *frame, a []value) value {
+		X.mapOrders = a[0].(bool)
+		return nil
+	}
 	harnessAPI["verifBackground"] = func(fr *frame, a []value) value {
 		X.sched().noBackground = !a[0].(bool)
 		return nil
